@@ -6,6 +6,7 @@ CONSTANTS
   DoublePars = {{}, {1}}
   CompletePars = {{}, {1}}
   EmitLen = 0
+  RandomOps = FALSE
   EmitRare = {}
 INVARIANT InvCyclesComplete
 INVARIANT InvExponentBalance
